@@ -939,7 +939,11 @@ class Watcher(object):
 
         if not self.is_stopped():
             if len(self.processes) < self.numprocesses:
-                self.reap_processes()
+                # only reap the dead: reap_process() waits for its process
+                # to die, which a running worker never does
+                for process in list(self.processes.values()):
+                    if process.status in (DEAD_OR_ZOMBIE, UNEXISTING):
+                        self.reap_process(process.pid)
                 yield self.spawn_processes()
             return
 
